@@ -12,7 +12,7 @@ def scenarios(rng, tier):
     sc += [x for x in T.fam_slots(rng, cfgs=(T.CFG_A,)) if x["name"].startswith("slots-replace")]
     sc += T.fam_auth(rng)[:2] + T.fam_oddnode(rng) + T.fam_random(rng, 14 if tier == "quick" else 200)
     # node replies include no reply at all: an outage on the request path and on the block-processing path
-    sc += [x for x in T.fam_outage(rng, ms=14000) if x["name"] in ("outage-request-k0", "outage-block-k0", "outage-request-atsend")]
+    sc += [x for x in T.fam_outage(rng, ms=25000) if x["name"] in ("outage-request-k0", "outage-block-k0", "outage-request-atsend")]
     sc += T.fam_conc(rng, tier)       # lock-order / circular-wait exploration on real threads (also judged by C10)
     if tier == "thorough":
         sc += T.fam_reorg(rng, deep=True) + T.fam_breach(rng) + T.fam_expiry(rng) + T.fam_slots(rng)
